@@ -1,5 +1,808 @@
 package main
 
-import "verif/mon"
+import (
+	"context"
+	"encoding/binary"
+	"fmt"
+	"math/rand/v2"
+	"net"
+	"net/netip"
+	"sort"
+	"strings"
+	"sync"
+	"sync/atomic"
+	"time"
 
-func checkC15(r *mon.Run) {}
+	"github.com/scionproto/scion/pkg/addr"
+	"github.com/scionproto/scion/pkg/log"
+	"github.com/scionproto/scion/private/topology"
+	"github.com/scionproto/scion/private/underlay/conn"
+	"github.com/scionproto/scion/router"
+	"github.com/scionproto/scion/router/bfd"
+
+	"verif/mon"
+	"verif/rfix"
+)
+
+// C15: three running data planes (A0, A1 of AS A; B0 of AS B) joined by
+// in-memory wires that carry only BFD (everything else the routers emit is
+// observed and swallowed), each wire with a "cut" switch. The routers' real
+// BFD sessions run over the real bfdSend path. Probe packets are injected
+// through ReadBatch and their fate is observed at WriteBatch.
+
+var c15Magic = [4]byte{'C', '1', '5', 0xa5}
+
+type dgram struct {
+	b    []byte
+	addr *net.UDPAddr
+}
+
+type wire struct {
+	name      string
+	cut       atomic.Bool
+	bfd       bool
+	delivered atomic.Int64 // BFD datagrams carried
+	dropped   atomic.Int64 // BFD datagrams dropped because cut
+}
+
+type emission struct {
+	Router string `json:"router"`
+	Via    string `json:"via"`  // ext:<if> | sib:<k> | host
+	Kind   string `json:"kind"` // fwd | scmp
+	Type   uint8  `json:"scmp_type,omitempty"`
+	Code   uint8  `json:"scmp_code,omitempty"`
+	IA     uint64 `json:"scmp_ia,omitempty"`
+	IfA    uint64 `json:"scmp_if_a,omitempty"`
+	IfB    uint64 `json:"scmp_if_b,omitempty"`
+	Hex    string `json:"hex,omitempty"`
+}
+
+type wconn struct {
+	w             *c15World
+	rt            *c15Router
+	name          string
+	local, remote netip.AddrPort
+	in            chan dgram
+	closed        chan struct{}
+	once          sync.Once
+	peer          *wconn
+	wire          *wire
+	self          *net.UDPAddr // this conn's local address as seen by the peer
+	overflow      atomic.Int64
+}
+
+func (c *wconn) ReadBatch(msgs conn.Messages) (int, error) {
+	var d dgram
+	select {
+	case d = <-c.in:
+	case <-c.closed:
+		return 0, errConnClosed
+	}
+	n := 0
+	for {
+		msgs[n].N = copy(msgs[n].Buffers[0], d.b)
+		msgs[n].Addr = d.addr
+		n++
+		if n == len(msgs) {
+			return n, nil
+		}
+		select {
+		case d = <-c.in:
+		default:
+			return n, nil
+		}
+	}
+}
+
+func (c *wconn) push(d dgram) {
+	select {
+	case c.in <- d:
+	default:
+		c.overflow.Add(1)
+	}
+}
+
+func (c *wconn) WriteBatch(msgs conn.Messages, _ int) (int, error) {
+	for i := range msgs {
+		b := msgs[i].Buffers[0]
+		dst, wr, via := c.peer, c.wire, c.name
+		if c.peer == nil { // unconnected internal socket: route by destination address
+			dst, wr, via = nil, nil, "host"
+			if a, ok := msgs[i].Addr.(*net.UDPAddr); ok && a != nil {
+				ap := a.AddrPort()
+				ap = netip.AddrPortFrom(ap.Addr().Unmap(), ap.Port())
+				if o := c.rt.as.internal[ap]; o != nil && o != c {
+					dst, wr = o, c.rt.as.sibWire
+					via = fmt.Sprintf("sib:%d", o.rt.idx)
+				}
+			}
+		}
+		if len(b) > 4 && b[4] == 203 { // BFD: the only traffic the wires carry
+			if dst == nil || wr == nil {
+				continue
+			}
+			if wr.cut.Load() {
+				wr.dropped.Add(1)
+				continue
+			}
+			wr.delivered.Add(1)
+			dst.push(dgram{b: append([]byte(nil), b...), addr: c.self})
+			continue
+		}
+		c.w.observe(c.rt, via, b)
+	}
+	return len(msgs), nil
+}
+
+func (c *wconn) Close() error {
+	c.once.Do(func() { close(c.closed) })
+	return nil
+}
+
+type c15AS struct {
+	ia       addr.IA
+	key      []byte
+	internal map[netip.AddrPort]*wconn // internal conns of the AS's routers by address
+	sibWire  *wire
+}
+
+type c15Router struct {
+	name   string
+	idx    int
+	as     *c15AS
+	star   *rfix.Star
+	conns  []*wconn
+	byNm   map[string]*wconn
+	ifs    map[uint16]rfix.IfSpec
+	cancel context.CancelFunc
+}
+
+type probeTmpl struct {
+	rt      *c15Router
+	b       []byte
+	in      *wconn
+	src     *net.UDPAddr
+	inIf    uint16 // AS-level ingress interface (0: from a host)
+	inKind  string // ext | host | sibling
+	egIf    uint16
+	egScope string // external | sibling
+	desc    string
+}
+
+type c15World struct {
+	r       *mon.Run
+	id      int
+	reuse   bool
+	sibBFD  bool
+	bfdMs   int
+	routers []*c15Router
+	wires   []*wire
+	probes  []*probeTmpl
+
+	mu     sync.Mutex
+	emis   map[uint64][]emission
+	notify chan struct{}
+	serial uint64
+
+	stats map[string]int64
+}
+
+func (w *c15World) observe(rt *c15Router, via string, b []byte) {
+	var ser uint64
+	var em emission
+	found := false
+	tail := func(p []byte) (uint64, bool) {
+		if len(p) >= 12 && string(p[len(p)-12:len(p)-8]) == string(c15Magic[:]) {
+			return binary.BigEndian.Uint64(p[len(p)-8:]), true
+		}
+		return 0, false
+	}
+	if len(b) > 4 && b[4] == 202 {
+		m := rfix.ParseSCMP(b)
+		if m.OK && m.Quote != nil {
+			if s, ok := tail(m.Quote); ok {
+				ser, found = s, true
+				em = emission{Kind: "scmp", Type: m.Type, Code: m.Code, IA: m.IA, IfA: m.IfA, IfB: m.IfB}
+			}
+		}
+	} else if s, ok := tail(b); ok {
+		ser, found = s, true
+		em = emission{Kind: "fwd"}
+	}
+	if !found {
+		return
+	}
+	em.Router, em.Via = rt.name, via
+	if len(b) <= 400 {
+		em.Hex = mon.Hex(b)
+	}
+	w.mu.Lock()
+	w.emis[ser] = append(w.emis[ser], em)
+	w.mu.Unlock()
+	select {
+	case w.notify <- struct{}{}:
+	default:
+	}
+}
+
+// await waits for the first emission that carries the serial.
+func (w *c15World) await(ser uint64, watchdog time.Duration) ([]emission, bool) {
+	deadline := time.NewTimer(watchdog)
+	defer deadline.Stop()
+	for {
+		w.mu.Lock()
+		e := append([]emission(nil), w.emis[ser]...)
+		w.mu.Unlock()
+		if len(e) > 0 {
+			return e, true
+		}
+		select {
+		case <-w.notify:
+		case <-time.After(2 * time.Millisecond):
+		case <-deadline.C:
+			return nil, false
+		}
+	}
+}
+
+type c15Opener struct {
+	rt    *c15Router
+	w     *c15World
+	reuse bool
+}
+
+func (o *c15Opener) Open(l, r netip.AddrPort, _ *conn.Config) (router.BatchConn, error) {
+	c := &wconn{w: o.w, rt: o.rt, local: l, remote: r, in: make(chan dgram, 1024), closed: make(chan struct{})}
+	c.self = net.UDPAddrFromAddrPort(l)
+	o.rt.conns = append(o.rt.conns, c)
+	return c, nil
+}
+func (o *c15Opener) UDPCanReuseLocal() bool { return o.reuse }
+
+func distinctIfs(rng *rand.Rand, n int) []uint16 {
+	used := map[uint16]bool{0: true}
+	var out []uint16
+	for len(out) < n {
+		var v uint16
+		if rng.IntN(2) == 0 {
+			v = uint16(1 + rng.IntN(60))
+		} else {
+			v = uint16(1 + rng.IntN(65535))
+		}
+		if !used[v] {
+			used[v] = true
+			out = append(out, v)
+		}
+	}
+	return out
+}
+
+func buildC15World(r *mon.Run, rng *rand.Rand, id int) (*c15World, error) {
+	w := &c15World{r: r, id: id, reuse: rng.IntN(2) == 0, sibBFD: rng.IntN(4) != 0, bfdMs: 25 + rng.IntN(30),
+		emis: map[uint64][]emission{}, notify: make(chan struct{}, 1), stats: map[string]int64{}}
+	// the seed is part of the AS numbers: metric label sets (global registry) stay distinct per world
+	iaA := addr.MustIAFrom(1, addr.AS(0xff00_0000_0000+uint64(r.Seed%200)<<16+uint64(2*id+0x100)))
+	iaB := addr.MustIAFrom(2, addr.AS(0xff00_0000_0000+uint64(r.Seed%200)<<16+uint64(2*id+0x101)))
+	mkKey := func() []byte {
+		k := make([]byte, 16)
+		for i := range k {
+			k[i] = byte(rng.IntN(256))
+		}
+		return k
+	}
+	asA := &c15AS{ia: iaA, key: mkKey(), internal: map[netip.AddrPort]*wconn{}, sibWire: &wire{name: "A0<->A1 sibling", bfd: w.sibBFD}}
+	asB := &c15AS{ia: iaB, key: mkKey(), internal: map[netip.AddrPort]*wconn{}}
+	xa := distinctIfs(rng, 4) // x1 x2 x3 (A0), z1 (A1)
+	yb := distinctIfs(rng, 4) // y1..y4 (B0)
+	x1, x2, x3, z1 := xa[0], xa[1], xa[2], xa[3]
+	z1BFD := rng.IntN(2) == 0
+	ext := func(id uint16, rem addr.IA, bfd bool) rfix.IfSpec {
+		return rfix.IfSpec{ID: id, LinkTo: topology.Core, Remote: rem, Owned: true, BFD: bfd, MTU: 1400}
+	}
+	sib := func(id uint16, rem addr.IA, k int) rfix.IfSpec {
+		return rfix.IfSpec{ID: id, LinkTo: topology.Core, Remote: rem, Owned: false, Sibling: k, BFD: w.sibBFD, MTU: 1400}
+	}
+	type rdef struct {
+		name string
+		as   *c15AS
+		idx  int
+		ifs  []rfix.IfSpec
+	}
+	defs := []rdef{
+		{"A0", asA, 0, []rfix.IfSpec{ext(x1, iaB, true), ext(x2, iaB, false), ext(x3, iaB, true), sib(z1, iaB, 1)}},
+		{"A1", asA, 1, []rfix.IfSpec{ext(z1, iaB, z1BFD), sib(x1, iaB, 0), sib(x2, iaB, 0), sib(x3, iaB, 0)}},
+		{"B0", asB, 0, []rfix.IfSpec{ext(yb[0], iaA, true), ext(yb[1], iaA, false), ext(yb[2], iaA, true), ext(yb[3], iaA, z1BFD)}},
+	}
+	for _, d := range defs {
+		rt := &c15Router{name: d.name, idx: d.idx, as: d.as, byNm: map[string]*wconn{}, ifs: map[uint16]rfix.IfSpec{}}
+		for _, f := range d.ifs {
+			rt.ifs[f.ID] = f
+		}
+		s, err := rfix.NewStarRun(rfix.StarCfg{
+			IA: d.as.ia, HopKey: d.as.key, Ifs: d.ifs, ReuseLocal: w.reuse, RouterIndex: d.idx,
+			RangeSet: true, PortStart: 31000, PortEnd: 32767,
+			Opener: &c15Opener{rt: rt, w: w, reuse: w.reuse},
+		}, rfix.RunCfg{NumProcessors: 2, NumSlowPathProcessors: 1, BatchSize: 8, BFDDetectMult: 3,
+			BFDDesiredMinTx: time.Duration(w.bfdMs) * time.Millisecond, BFDRequiredMinRx: time.Duration(w.bfdMs) * time.Millisecond})
+		if err != nil {
+			return nil, fmt.Errorf("%s: %w", d.name, err)
+		}
+		rt.star = s
+		for _, c := range rt.conns {
+			switch {
+			case !c.remote.IsValid():
+				c.name = "int"
+				d.as.internal[c.local] = c
+			default:
+				for _, f := range d.ifs {
+					if f.Owned && rfix.ExtRemoteAddr(f.ID) == c.remote {
+						c.name = fmt.Sprintf("ext:%d", f.ID)
+					}
+				}
+				if c.name == "" {
+					for k := 0; k <= 2; k++ {
+						if rfix.SiblingAddr(k) == c.remote {
+							c.name = fmt.Sprintf("sib:%d", k)
+						}
+					}
+				}
+			}
+			rt.byNm[c.name] = c
+		}
+		w.routers = append(w.routers, rt)
+	}
+	a0, a1, b0 := w.routers[0], w.routers[1], w.routers[2]
+	join := func(ra *c15Router, ia uint16, rb *c15Router, ib uint16, bfd bool) error {
+		ca, cb := ra.byNm[fmt.Sprintf("ext:%d", ia)], rb.byNm[fmt.Sprintf("ext:%d", ib)]
+		if ca == nil || cb == nil {
+			return fmt.Errorf("no conn for %s.%d / %s.%d", ra.name, ia, rb.name, ib)
+		}
+		wr := &wire{name: fmt.Sprintf("%s.%d<->%s.%d", ra.name, ia, rb.name, ib), bfd: bfd}
+		ca.peer, cb.peer, ca.wire, cb.wire = cb, ca, wr, wr
+		w.wires = append(w.wires, wr)
+		return nil
+	}
+	for _, e := range []error{join(a0, x1, b0, yb[0], true), join(a0, x2, b0, yb[1], false), join(a0, x3, b0, yb[2], true), join(a1, z1, b0, yb[3], z1BFD)} {
+		if e != nil {
+			return nil, e
+		}
+	}
+	w.wires = append(w.wires, asA.sibWire)
+	if w.reuse {
+		c01, c10 := a0.byNm["sib:1"], a1.byNm["sib:0"]
+		if c01 == nil || c10 == nil {
+			return nil, fmt.Errorf("sibling conns missing")
+		}
+		c01.peer, c10.peer, c01.wire, c10.wire = c10, c01, asA.sibWire, asA.sibWire
+	}
+	// --- probe templates ---
+	type combo struct {
+		rt     *c15Router
+		in, eg uint16 // in == 0: from a host
+	}
+	combos := []combo{
+		{a0, x2, x1}, {a0, x2, x3}, {a0, 0, x1}, {a0, 0, x3}, {a0, x1, x2}, {a0, x3, x2}, {a0, 0, x2},
+		{a0, x2, z1}, {a0, x1, z1}, {a0, x3, x1},
+		{a1, x1, z1}, {a1, x2, z1}, {a1, 0, z1}, {a1, z1, x1}, {a1, z1, x2},
+		{b0, yb[1], yb[0]}, {b0, 0, yb[0]}, {b0, yb[0], yb[1]}, {b0, yb[1], yb[2]}, {b0, 0, yb[3]},
+	}
+	now := time.Now().Unix()
+	for _, cb := range combos {
+		got := 0
+		for try := 0; try < 4000 && got < 3; try++ {
+			sh := rfix.ShTransit
+			if cb.in == 0 {
+				sh = rfix.ShSrc
+			}
+			sc := cb.rt.star.GenScenario(rng, sh, now)
+			if sc.InIf != cb.in || sc.EgIf != cb.eg || sc.EgIf == 0 {
+				continue
+			}
+			b, err := sc.Packet(rng, func(p *rfix.PktSpec) {
+				p.L4 = rfix.L4UDP
+				p.Payload = make([]byte, 12+rng.IntN(100))
+				for i := range p.Payload {
+					p.Payload[i] = byte(rng.IntN(256))
+				}
+			})
+			if err != nil {
+				continue
+			}
+			pt := &probeTmpl{rt: cb.rt, b: b, inIf: cb.in, egIf: cb.eg}
+			switch {
+			case cb.in == 0:
+				pt.in, pt.src, pt.inKind = cb.rt.byNm["int"], sc.In.Src, "host"
+			case cb.rt.ifs[cb.in].Owned:
+				a := rfix.ExtRemoteAddr(cb.in)
+				pt.in, pt.src, pt.inKind = cb.rt.byNm[fmt.Sprintf("ext:%d", cb.in)], net.UDPAddrFromAddrPort(a), "ext"
+			default:
+				k := cb.rt.ifs[cb.in].Sibling
+				pt.src, pt.inKind = net.UDPAddrFromAddrPort(rfix.SiblingAddr(k)), "sibling"
+				if w.reuse {
+					pt.in = cb.rt.byNm[fmt.Sprintf("sib:%d", k)]
+				} else {
+					pt.in = cb.rt.byNm["int"]
+				}
+			}
+			if pt.in == nil {
+				return nil, fmt.Errorf("no ingress conn for %s in=%d", cb.rt.name, cb.in)
+			}
+			pt.egScope = "external"
+			if !cb.rt.ifs[cb.eg].Owned {
+				pt.egScope = "sibling"
+			}
+			pt.desc = fmt.Sprintf("%s %s(if %d)->%s(if %d) kinds=%v", cb.rt.name, pt.inKind, cb.in, pt.egScope, cb.eg, sc.Kinds)
+			w.probes = append(w.probes, pt)
+			got++
+		}
+		if got == 0 {
+			return nil, fmt.Errorf("no probe for %s in=%d eg=%d", cb.rt.name, cb.in, cb.eg)
+		}
+	}
+	return w, nil
+}
+
+func (w *c15World) start() {
+	for _, rt := range w.routers {
+		ctx, cancel := context.WithCancel(context.Background())
+		rt.cancel = cancel
+		go func(rt *c15Router) {
+			_ = rt.star.C.DataPlane.Run(ctx)
+		}(rt)
+	}
+}
+
+// sessions returns every BFD session of the world with the wire it runs over.
+type sessRef struct {
+	rt   *c15Router
+	ifID uint16
+	s    *bfd.Session
+	wire *wire
+}
+
+func (w *c15World) sessions() []sessRef {
+	var out []sessRef
+	for _, rt := range w.routers {
+		seen := map[*bfd.Session]bool{}
+		ids := make([]int, 0, len(rt.ifs))
+		for id := range rt.ifs {
+			ids = append(ids, int(id))
+		}
+		sort.Ints(ids)
+		for _, id := range ids {
+			f := rt.ifs[uint16(id)]
+			l := rt.star.Link(f.ID)
+			if l == nil || l.BFDSession() == nil || seen[l.BFDSession()] {
+				continue
+			}
+			seen[l.BFDSession()] = true
+			var wr *wire
+			if f.Owned {
+				if c := rt.byNm[fmt.Sprintf("ext:%d", f.ID)]; c != nil {
+					wr = c.wire
+				}
+			} else {
+				wr = rt.as.sibWire
+			}
+			out = append(out, sessRef{rt: rt, ifID: f.ID, s: l.BFDSession(), wire: wr})
+		}
+	}
+	return out
+}
+
+// waitStates waits until every session is up exactly if its wire is not cut.
+func (w *c15World) waitStates(watchdog time.Duration) bool {
+	deadline := time.Now().Add(watchdog)
+	ss := w.sessions()
+	for {
+		ok := true
+		for _, s := range ss {
+			if s.wire == nil {
+				continue
+			}
+			if s.s.IsUp() == s.wire.cut.Load() {
+				ok = false
+			}
+		}
+		if ok {
+			return true
+		}
+		if time.Now().After(deadline) {
+			return false
+		}
+		time.Sleep(3 * time.Millisecond)
+	}
+}
+
+type probeWitness struct {
+	World     int        `json:"world"`
+	Probe     string     `json:"probe"`
+	LocalIA   string     `json:"local_ia"`
+	Phase     string     `json:"phase"`
+	State     string     `json:"session_state_before_and_after"`
+	Changes   float64    `json:"session_state_changes_before_and_after"`
+	Reuse     bool       `json:"udp_can_reuse_local"`
+	Input     string     `json:"input_hex"`
+	Emissions []emission `json:"emissions"`
+	History   []string   `json:"history"`
+}
+
+// probe injects one probe and judges its fate under the bracket rule.
+func (w *c15World) probe(pt *probeTmpl, phase string, hist []string) {
+	r := w.r
+	w.serial++
+	ser := uint64(w.id)<<40 | w.serial
+	b := append([]byte(nil), pt.b...)
+	copy(b[len(b)-12:], c15Magic[:])
+	binary.BigEndian.PutUint64(b[len(b)-8:], ser)
+
+	link := pt.rt.star.Link(pt.egIf)
+	sess := link.BFDSession()
+	var c0, c1 float64
+	var u0, u1 bool
+	if sess != nil {
+		c0 = router.VerifMetricValue(sess.Metrics.StateChanges)
+		u0 = sess.IsUp()
+	}
+	pt.in.push(dgram{b: b, addr: pt.src})
+	em, ok := w.await(ser, 5*time.Second)
+	if sess != nil {
+		u1 = sess.IsUp()
+		c1 = router.VerifMetricValue(sess.Metrics.StateChanges)
+	}
+	if !ok {
+		r.Inconclusive("probe-lost")
+		return
+	}
+	if sess != nil && (u0 != u1 || c0 != c1 || c0 < 0) {
+		r.Inconclusive("bfd-state-bracket")
+		r.Event("probe_during_state_change")
+		return
+	}
+	state := "nobfd"
+	if sess != nil {
+		state = "down"
+		if u0 {
+			state = "up"
+		}
+	}
+	wit := func() probeWitness {
+		// later emissions of the same serial, if any
+		w.mu.Lock()
+		all := append([]emission(nil), w.emis[ser]...)
+		w.mu.Unlock()
+		return probeWitness{World: w.id, Probe: pt.desc, LocalIA: pt.rt.as.ia.String(), Phase: phase, State: state, Changes: c0,
+			Reuse: w.reuse, Input: mon.Hex(b), Emissions: all, History: hist}
+	}
+	r.Eval(1)
+	first := em[0]
+	outcome := first.Kind
+	if first.Kind == "scmp" {
+		outcome = fmt.Sprintf("scmp%d", first.Type)
+	}
+	r.Class(fmt.Sprintf("%s/%s->%s/%s/%s/%s/reuse=%v", pt.rt.name, pt.inKind, pt.egScope, state, outcome, strings.SplitN(phase, ":", 2)[0], w.reuse))
+	wantVia := fmt.Sprintf("ext:%d", pt.egIf)
+	if pt.egScope == "sibling" {
+		wantVia = fmt.Sprintf("sib:%d", pt.rt.ifs[pt.egIf].Sibling)
+	}
+	localIA := uint64(pt.rt.as.ia)
+	switch state {
+	case "up", "nobfd":
+		switch {
+		case first.Kind == "fwd" && first.Via == wantVia:
+			r.Event("probe_forwarded_" + state)
+			if state == "up" && strings.Contains(phase, "cycle>0") {
+				r.Event("forwarded_after_restore")
+			}
+		case first.Kind == "fwd":
+			r.Violation("C15:forwarded-elsewhere:"+pt.egScope, fmt.Sprintf("probe left over %s instead of %s", first.Via, wantVia), wit())
+		case first.Type == 5 || first.Type == 6:
+			r.Violation("C15:up-not-forwarded:"+pt.egScope+":"+state,
+				fmt.Sprintf("link usable (BFD session %s throughout) but the probe was answered with SCMP type %d instead of being forwarded", state, first.Type), wit())
+		default:
+			// a different SCMP means the probe itself was not acceptable: not C15's business
+			r.Inconclusive(fmt.Sprintf("probe-rejected-scmp-%d-%d", first.Type, first.Code))
+		}
+	case "down":
+		wantType := uint8(5)
+		if pt.egScope == "sibling" {
+			wantType = 6
+		}
+		switch {
+		case first.Kind == "fwd":
+			r.Violation("C15:down-forwarded:"+pt.egScope,
+				fmt.Sprintf("BFD session of the egress link was not up throughout, yet the probe was forwarded over %s", first.Via), wit())
+		case first.Type != wantType:
+			if first.Type == 5 || first.Type == 6 {
+				r.Violation(fmt.Sprintf("C15:down-wrong-scmp:%s:type%d", pt.egScope, first.Type),
+					fmt.Sprintf("egress link (%s) down: answered with SCMP type %d, want %d", pt.egScope, first.Type, wantType), wit())
+			} else {
+				r.Inconclusive(fmt.Sprintf("probe-rejected-scmp-%d-%d", first.Type, first.Code))
+			}
+		default:
+			r.Event(fmt.Sprintf("probe_scmp%d_down", first.Type))
+			if first.IA != localIA {
+				r.Violation("C15:scmp-ia:"+pt.egScope, fmt.Sprintf("SCMP type %d names ISD-AS %x, want the local %x", first.Type, first.IA, localIA), wit())
+			}
+			if wantType == 5 && first.IfA != uint64(pt.egIf) {
+				r.Violation("C15:scmp-ifid:external", fmt.Sprintf("ExternalInterfaceDown names interface %d, want the egress interface %d", first.IfA, pt.egIf), wit())
+			}
+			if wantType == 6 {
+				if first.IfB != uint64(pt.egIf) {
+					r.Violation("C15:scmp-ifid:sibling-egress", fmt.Sprintf("InternalConnectivityDown names egress %d, want %d", first.IfB, pt.egIf), wit())
+				}
+				if pt.inKind == "ext" && first.IfA != uint64(pt.inIf) {
+					r.Violation("C15:scmp-ifid:sibling-ingress", fmt.Sprintf("InternalConnectivityDown names ingress %d, want %d", first.IfA, pt.inIf), wit())
+				}
+			}
+			// "forwards no packet over that link": no forwarding emission may exist for this probe
+			w.mu.Lock()
+			all := append([]emission(nil), w.emis[ser]...)
+			w.mu.Unlock()
+			for _, e := range all {
+				if e.Kind == "fwd" {
+					r.Violation("C15:down-forwarded:"+pt.egScope, "probe was answered with SCMP and ALSO forwarded", wit())
+				}
+			}
+		}
+	}
+	if r.WantSample() && w.serial%97 == 1 {
+		r.Sample(wit())
+	}
+}
+
+func (w *c15World) run(rng *rand.Rand, cycles, perPhase int) {
+	r := w.r
+	w.start()
+	var hist []string
+	note := func(f string, a ...any) {
+		hist = append(hist, fmt.Sprintf(f, a...))
+		if len(hist) > 40 {
+			hist = hist[len(hist)-40:]
+		}
+	}
+	probes := func(n int, phase string, prefer func(*probeTmpl) bool) {
+		for i := 0; i < n; i++ {
+			pt := w.probes[rng.IntN(len(w.probes))]
+			if prefer != nil && rng.IntN(3) != 0 {
+				for k := 0; k < 20 && !prefer(pt); k++ {
+					pt = w.probes[rng.IntN(len(w.probes))]
+				}
+			}
+			w.probe(pt, phase, append([]string(nil), hist...))
+		}
+	}
+	upWatch, downWatch := 40*time.Second, 30*time.Second
+	if !w.waitStates(upWatch) {
+		r.Inconclusive("bfd-initial-up-watchdog")
+		w.stop()
+		return
+	}
+	r.Event("world_all_sessions_up")
+	note("all sessions up")
+	for cyc := 0; cyc < cycles; cyc++ {
+		tag := "cycle0"
+		if cyc > 0 {
+			tag = "cycle>0"
+		}
+		probes(perPhase, "stable:all-up:"+tag, nil)
+		// cut a PRNG-chosen non-empty subset of wires
+		var cut []*wire
+		for len(cut) == 0 {
+			for _, wr := range w.wires {
+				if rng.IntN(3) == 0 {
+					cut = append(cut, wr)
+				}
+			}
+		}
+		isCut := func(pt *probeTmpl) bool {
+			l := pt.rt.star.Link(pt.egIf)
+			return l.BFDSession() != nil
+		}
+		for _, wr := range cut {
+			wr.cut.Store(true)
+			note("cut %s", wr.name)
+		}
+		probes(perPhase/4, "transition:after-cut:"+tag, isCut)
+		if !w.waitStates(downWatch) {
+			r.Inconclusive("bfd-down-watchdog")
+			break
+		}
+		r.Event("phase_cut_links_down")
+		note("sessions on cut wires down")
+		probes(perPhase, "stable:some-down:"+tag, func(pt *probeTmpl) bool {
+			s := pt.rt.star.Link(pt.egIf).BFDSession()
+			return s != nil && !s.IsUp()
+		})
+		for _, wr := range cut {
+			wr.cut.Store(false)
+			note("restore %s", wr.name)
+		}
+		probes(perPhase/4, "transition:after-restore:"+tag, isCut)
+		if !w.waitStates(upWatch) {
+			r.Inconclusive("bfd-recovery-watchdog")
+			break
+		}
+		r.Event("phase_restored_links_up")
+		note("all sessions up again")
+	}
+	probes(perPhase/2, "stable:all-up:cycle>0", nil)
+	w.stop()
+}
+
+// stop silences the world. The data planes are deliberately NOT shut down
+// (Shutdown with transmitting BFD sessions is C14's shutdown phase); all wires
+// are cut and nothing is injected any more.
+func (w *c15World) stop() {
+	r := w.r
+	for _, wr := range w.wires {
+		wr.cut.Store(true)
+		if wr.bfd {
+			r.EventN("bfd_datagrams_carried", wr.delivered.Load())
+			r.EventN("bfd_datagrams_dropped_by_cut", wr.dropped.Load())
+		}
+	}
+	var onehopRx, intraRx, tx float64
+	for _, s := range w.sessions() {
+		rx := router.VerifMetricValue(s.s.Metrics.PacketsReceived)
+		tx += router.VerifMetricValue(s.s.Metrics.PacketsSent)
+		if s.rt.ifs[s.ifID].Owned {
+			onehopRx += rx
+		} else {
+			intraRx += rx
+		}
+		r.EventN("bfd_session_state_changes", int64(router.VerifMetricValue(s.s.Metrics.StateChanges)))
+	}
+	r.EventN("bfd_onehop_packets_accepted_by_peer_session", int64(onehopRx))
+	r.EventN("bfd_intra_as_packets_accepted_by_peer_session", int64(intraRx))
+	r.EventN("bfd_packets_sent_by_sessions", int64(tx))
+	for _, rt := range w.routers {
+		for _, c := range rt.conns {
+			if n := c.overflow.Load(); n > 0 {
+				r.EventN("wire_queue_overflow", n)
+			}
+		}
+	}
+}
+
+func checkC15(r *mon.Run) {
+	_ = log.Setup(log.Config{Console: log.ConsoleConfig{Level: "error", StacktraceLevel: "none"}})
+	r.Rule = "worlds of three RUNNING data planes (A0, A1 of one AS, B0 of another; Connector + udpip; both UDPCanReuseLocal modes) joined by in-memory wires carrying only the routers' own BFD " +
+		"(one-hop BFD on 3-4 inter-AS links, empty-path BFD on the A0<->A1 sibling link; one inter-AS link without BFD; timers 25-55 ms x3), each wire with a cut switch; " +
+		"histories: all up -> cut PRNG subset -> sessions down -> restore -> up again, several cycles; probes (valid transit / host-origin packets of the star fixture whose egress is a chosen link) are injected " +
+		"via ReadBatch and observed at WriteBatch by serial; session state = bfd.Session.IsUp + its state-change counter read before injection and after the outcome (bracket rule); " +
+		"class = router/ingress kind->egress scope/session state/outcome/phase/reuse mode"
+	r.Assumptions = []string{
+		"the session state is sampled from bfd.Session (IsUp and the StateChanges metric), not from Link.IsUp, which is one of the mechanisms under test",
+		"probes whose bracket straddles a state change, or that are lost (busy queues), are inconclusive",
+		"waiting for BFD to detect/recover uses watchdogs that only produce inconclusive (recovery itself is C16)",
+		"a probe answered with an SCMP other than type 5/6 is a fixture problem, counted as inconclusive",
+		"InternalConnectivityDown's ingress field is judged only for probes that entered through an external interface of the probed router",
+	}
+	nWorlds := r.Pick(8, 48)
+	cycles := r.Pick(3, 5)
+	perPhase := r.Pick(160, 240)
+	par := 8
+	var wg sync.WaitGroup
+	sem := make(chan struct{}, par)
+	for i := 0; i < nWorlds; i++ {
+		rng := r.Rand(fmt.Sprint("c15-world-", i))
+		w, err := buildC15World(r, rng, i)
+		if err != nil {
+			fmt.Println("C15 fixture error:", err)
+			r.Inconclusive("fixture")
+			continue
+		}
+		wg.Add(1)
+		sem <- struct{}{}
+		go func() {
+			defer wg.Done()
+			defer func() { <-sem }()
+			w.run(rng, cycles, perPhase)
+		}()
+	}
+	wg.Wait()
+	r.Require(int64(nWorlds*cycles*perPhase), 20, "world_all_sessions_up", "phase_cut_links_down", "phase_restored_links_up",
+		"probe_forwarded_up", "probe_forwarded_nobfd", "probe_scmp5_down", "probe_scmp6_down", "forwarded_after_restore",
+		"bfd_onehop_packets_accepted_by_peer_session", "bfd_intra_as_packets_accepted_by_peer_session")
+}
